@@ -271,3 +271,81 @@ def panic_sites(prog, fn_key, text=None):
         if text is None or text in msg:
             out.append((b, msg))
     return out
+
+
+def assume_expr(pred):
+    """PEval assumption from pred(expr) -> True/False/None evaluated on (Not-stripped) boolean switch operands."""
+    def a(body, b, t, e):
+        pol = True
+        while e[0] == "unop" and e[1] == "Not":
+            e = e[2]
+            pol = not pol
+        r = pred(e)
+        if r is None:
+            return None
+        return switch_targets_for(t, r if pol else (not r))
+    return a
+
+
+def assume_all(*assumptions):
+    def a(body, b, t, e):
+        for x in assumptions:
+            if x is None:
+                continue
+            r = x(body, b, t, e)
+            if r is not None:
+                return r
+        return None
+    return a
+
+
+def is_field(e, adt, field):
+    e = strip(e)
+    return e[0] == "field" and e[2] == field and (adt is None or e[3] == adt)
+
+
+def field_cmp(op, adt_a, fa, adt_b=None, fb=None, const=None):
+    """Predicate for a binop `X.fa <op> Y.fb` / `X.fa <op> const`."""
+    def p(e):
+        if e[0] != "binop" or e[1] != op:
+            return False
+        if not mentions_field(e[2], adt_a, fa):
+            return False
+        if fb is not None:
+            return mentions_field(e[3], adt_b, fb) is not None
+        if const is not None:
+            return canon(e[3]) == str(const)
+        return True
+    return p
+
+
+def every_path_passes(body, blocks, start=0):
+    """Every normal path from `start` to a return passes through one of `blocks`."""
+    blocks = set(blocks)
+    if start in blocks:
+        return True
+    seen = {start}
+    dq = [start]
+    while dq:
+        b = dq.pop()
+        if body.term(b)["k"] == "return":
+            return False
+        for s in body.succs(b):
+            if s not in seen and s not in blocks:
+                seen.add(s)
+                dq.append(s)
+    return True
+
+
+def field_writes(prog, fn_key, adt, field, kinds=("assign",)):
+    return [w for w in prog.writers().get((adt, field), []) if w["fn"] == fn_key and w["kind"] in kinds and w["exact"]]
+
+
+def rv_expr(prog, w):
+    body = prog.fns[w["fn"]].body
+    st = w["stmt"]
+    if w["idx"] == "term":
+        return ("call", callee_path(st), [body.expr_of_operand(a) for a in st["args"]], w["bb"])
+    if st["k"] == "=":
+        return body.expr_of_rvalue(st["rv"])
+    return ("other", st["k"])
